@@ -473,7 +473,7 @@ func runTermMon(c *harness.Ctx) {
 		if realHandlers {
 			// the real connection handlers of obfs4proxy with stub factories:
 			// whatever path they take, starts and finishes must pair up
-			kind := t.Draw("hkind", 6)
+			kind := t.Draw("hkind", 8)
 			c.S.Go(fmt.Sprintf("h%d/handler", i), func() {
 				c.S.Sleep(time.Duration(startDelay) * time.Millisecond)
 				active++
@@ -519,12 +519,18 @@ func runTermMon(c *harness.Ctx) {
 					checkClosed(l.B, "clientHandler (bad SOCKS request)")
 				default: // client side: SOCKS5 ok, (stub) transport dial ok or refused, then a short relay
 					l := c.Net.NewLink(fmt.Sprintf("tor%d", i), fmt.Sprintf("h%d", i))
-					cf := &stubClientFactory{c: c, fail: kind == 3, work: time.Duration(work) * time.Millisecond, idx: i, inWork: &inWork}
+					// kind 6: the transport rejects the bridge arguments; kind 7: tor
+					// hangs up as soon as it has sent its request (the reply cannot go out)
+					cf := &stubClientFactory{c: c, fail: kind == 3, argsFail: kind == 6, work: time.Duration(work) * time.Millisecond, idx: i, inWork: &inWork}
 					c.S.Go(fmt.Sprintf("tor%d/socks", i), func() {
 						l.A.Write([]byte{5, 1, 0})
 						buf := make([]byte, 64)
 						io.ReadFull(l.A, buf[:2])
 						l.A.Write([]byte{5, 1, 0, 1, 10, 0, 0, 9, 1, 187})
+						if kind == 7 {
+							l.A.Close()
+							return
+						}
 						if _, err := io.ReadFull(l.A, buf[:10]); err != nil || buf[1] != 0 {
 							l.A.Close()
 							return
@@ -541,6 +547,10 @@ func runTermMon(c *harness.Ctx) {
 					})
 					if kind == 3 {
 						c.Feature("real-clientHandler-dial-refused")
+					} else if kind == 6 {
+						c.Feature("real-clientHandler-bad-bridge-args")
+					} else if kind == 7 {
+						c.Feature("real-clientHandler-tor-hangs-up-before-reply")
 					} else {
 						c.Feature("real-clientHandler-relayed")
 					}
@@ -704,13 +714,20 @@ type stubClientFactory struct {
 	fail bool
 	work time.Duration
 	idx  int
+	// argsFail: ParseArgs rejects the bridge arguments
+	argsFail bool
 	// inWork, if set, counts handlers that are inside Dial (which takes a
 	// while: the handler is demonstrably between its start and finish reports)
 	inWork *int
 }
 
 func (f *stubClientFactory) Transport() base.Transport       { return stubTransport{} }
-func (f *stubClientFactory) ParseArgs(*pt.Args) (any, error) { return nil, nil }
+func (f *stubClientFactory) ParseArgs(*pt.Args) (any, error) {
+	if f.argsFail {
+		return nil, fmt.Errorf("stub: invalid bridge arguments")
+	}
+	return nil, nil
+}
 func (f *stubClientFactory) Dial(network, addr string, dialFn base.DialFunc, args any) (net.Conn, error) {
 	if f.inWork != nil {
 		// connecting takes a moment
